@@ -850,7 +850,10 @@ def _validate_skip_unknown(skip_unknown):
 def _should_skip(selector, skip_unknown):
   """Checks whether `selector` should be skipped (if unknown)."""
   _validate_skip_unknown(skip_unknown)
-  if _REGISTRY.matching_selectors(selector):
+  # In a file that uses dynamic registration, "known" means resolvable through
+  # the file's own imports, whatever earlier files may have registered.
+  dynamic_registration = _parse_context()._dynamic_registration  # pylint: disable=protected-access
+  if not dynamic_registration and _REGISTRY.matching_selectors(selector):
     return False  # Never skip known configurables.
   try:
     # With dynamic registration, a configurable is also known if it can be
